@@ -497,6 +497,12 @@ type Contract struct {
 	Expands  []string
 	ModNothing bool
 	Extern   bool // contract on a function/interface of a dependency (key = full name)
+	AimReq, AimEns, AimClaims []Clause // clauses tagged with the aimcheck property: only used in aim mode
+	AimInvs map[string][]Clause
+	NoWrite []Clause // call-graph frame: fields (pkg.Type.field) of objects it did not allocate that the function never writes
+	AimAlso []Clause // other State objects (never touched by CheckTx) that may be used directly
+	AimExempt []string // store types (pkg.Type) whose aim is not the deliver state by design
+	AimExemptWhy string
 	OpaqueArith bool // products/quotients of two non-literal operands become uninterpreted (sign facts only) in this body's queries
 	DynPure  bool // dynamic calls without static callee in this body are assumed to modify nothing
 	FrameTag string
@@ -610,7 +616,7 @@ func ParseContractFile(path, pkg string) (*ContractFile, error) {
 		body := strings.TrimPrefix(t, "//@")
 		lines = append(lines, ln{body, i + 1})
 	}
-	keywords := []string{"opaque-arith", "aimcheck", "assumes", "exports", "dyncalls", "claims", "grants", "forbids", "footprint", "iterator", "count", "update", "func", "assume", "interface", "method", "requires", "ensures", "modifies", "invariant", "safety", "ghost", "model", "repr", "axiom", "implements", "lemma", "yields", "property", "noinline", "const", "expands", "inline"}
+	keywords := []string{"opaque-arith", "nowrite", "aimalso", "aimexempt", "aimcheck", "assumes", "exports", "dyncalls", "claims", "grants", "forbids", "footprint", "iterator", "count", "update", "func", "assume", "interface", "method", "requires", "ensures", "modifies", "invariant", "safety", "ghost", "model", "repr", "axiom", "implements", "lemma", "yields", "property", "noinline", "const", "expands", "inline"}
 	isKw := func(s string) bool {
 		f := strings.Fields(s)
 		if len(f) == 0 {
@@ -777,6 +783,33 @@ func ParseContractFile(path, pkg string) (*ContractFile, error) {
 				return nil, fail(l, err)
 			}
 			cur.AimCheck = &Clause{Tag: tag, Expr: e, Src: es}
+		case "nowrite":
+			if cur == nil {
+				return nil, fail(l, fmt.Errorf("nowrite outside func"))
+			}
+			es, tag := splitTag(rest)
+			cur.NoWrite = append(cur.NoWrite, Clause{Tag: tag, Src: es})
+		case "aimalso":
+			if cur == nil {
+				return nil, fail(l, fmt.Errorf("aimalso outside func"))
+			}
+			es, why := splitTag(rest)
+			e, err := ParseExpr(es)
+			if err != nil {
+				return nil, fail(l, err)
+			}
+			cur.AimAlso = append(cur.AimAlso, Clause{Tag: why, Expr: e, Src: es})
+		case "aimexempt":
+			if cur == nil {
+				return nil, fail(l, fmt.Errorf("aimexempt outside func"))
+			}
+			es, why := splitTag(rest)
+			for _, tn := range strings.Split(es, ",") {
+				if tn = strings.TrimSpace(tn); tn != "" {
+					cur.AimExempt = append(cur.AimExempt, tn)
+				}
+			}
+			cur.AimExemptWhy = why
 		case "iterator":
 			if cur != nil {
 				cur.Iterator = true
